@@ -115,6 +115,12 @@ func (g *G) Stmt(depth int, ind string) string {
 			return "return " + g.Expr(TInt, 1)
 		}
 	}
+	if g.r.Intn(30) == 0 {
+		return g.aliasProbe()
+	}
+	if g.r.Intn(60) == 0 {
+		return g.siblingClosures()
+	}
 	switch {
 	case k < 5: // define
 		t := pick(g.r, allValueTypes)
@@ -480,4 +486,73 @@ func (g *G) loopCapture() string {
 		x := g.fresh("x")
 		return fs + " := []; if true { " + x + " := 10; " + fs + " = append(" + fs + ", func() { " + x + " += 1; return " + x + " }) }; for " + k + ", " + v + " in " + arr + " { " + k + " = " + k + " }; " + call
 	}
+}
+
+// aliasProbe derives a second container from a first through an operation that either must hand out fresh storage
+// (spread into a variadic parameter, copy, +, a literal built from the elements) or is documented to share it (the
+// same object through a parameter, a map value, a slice), then writes into one of the two and records both. Which of
+// the two behaviours is right is for the reference model to say; the template only makes sure that the write happens.
+func (g *G) aliasProbe() string {
+	g.f("alias-probe")
+	a, b, w := g.fresh("al"), g.fresh("bl"), g.fresh("w")
+	isMap := g.r.Intn(4) == 0
+	var init, derive, write string
+	if isMap {
+		init = a + " := {p: " + g.lit(TInt) + ", q: [" + g.lit(TInt) + "]}"
+		derive = pick(g.r, []string{
+			"copy(" + a + ")",
+			"(func(x) { return x })(" + a + ")",
+			"(func(...xs) { return xs[0] })(" + a + ")",
+			"(func(...xs) { return xs[0] })([" + a + "]...)",
+			"{k: " + a + "}.k",
+			"[" + a + "][0]",
+			"(func() { return " + a + " })()",
+		})
+		write = pick(g.r, []string{a + ".p = 71", b + ".p = 72", a + ".q[0] = 73", b + ".q[0] = 74", a + ".r = 75", "delete(" + b + ", \"p\")"})
+	} else {
+		init = a + " := [" + g.lit(TInt) + ", " + g.lit(TInt) + ", " + g.lit(TInt) + "]"
+		if g.r.Intn(3) == 0 {
+			init = a + " := [[" + g.lit(TInt) + "], " + g.lit(TInt) + ", {n: " + g.lit(TInt) + "}]"
+		}
+		derive = pick(g.r, []string{
+			"(func(...xs) { return xs })(" + a + "...)",
+			"(func(p, ...xs) { return xs })(0, " + a + "...)",
+			"(func(p, q, ...xs) { return xs })(0, " + a + "...)",
+			"(func(p, ...xs) { xs[0] = 61; return xs })(0, " + a + "...)",
+			"(func(...xs) { xs[1] = 62; return [xs[0], xs[1], xs[2]] })(" + a + "...)",
+			"(func(...xs) { return xs })(" + a + "[0], " + a + "[1], " + a + "[2])",
+			"(func(...xs) { return xs[0] })(" + a + ")",
+			"(func(x) { x[2] = 63; return x })(" + a + ")",
+			"copy(" + a + ")",
+			a + " + []",
+			"[] + " + a,
+			"[" + a + "[0], " + a + "[1], " + a + "[2]]",
+			"append([], " + a + "...)",
+			"{k: " + a + "}.k",
+			"[" + a + "][0]",
+		})
+		write = pick(g.r, []string{a + "[0] = 71", b + "[0] = 72", a + "[2] = 73", b + "[len(" + b + ")-1] = 74", a + "[1] += 5", b + "[1] += 6"})
+	}
+	g.declare(a, TAny, true)
+	g.declare(b, TAny, true)
+	g.declare(w, TAny, true)
+	return init + "; " + b + " := " + derive + "; " + write + "; " + w + " := [" + a + ", " + b + ", " + a + " == " + b + "]"
+}
+
+// siblingClosures makes two closures from ONE function literal with different captured values and lets them call
+// each other in tail position: each activation must run with the captured variables of the closure that was called.
+func (g *G) siblingClosures() string {
+	g.f("sibling-closures")
+	mk, a, b, w := g.fresh("mk"), g.fresh("sa"), g.fresh("sb"), g.fresh("w")
+	g.declare(w, TAny, true)
+	n1, n2 := g.r.Intn(5), g.r.Intn(5)
+	body := "func(n, me, other) { cnt += 1; if n <= 0 { return [tag, cnt] }; return other(n-1, other, me) }"
+	if g.r.Intn(3) == 0 {
+		body = "func(n, me, other) { cnt += 1; return n <= 0 ? [tag, cnt] : other(n-1, other, me) }"
+	}
+	if g.r.Intn(3) == 0 {
+		body = "func(n, me, other) { cnt += 1; if n <= 0 { return [tag, cnt] }; return n % 2 == 0 && other(n-1, other, me) }"
+	}
+	return mk + " := func(tag) { cnt := 0; return " + body + " }; " + a + " := " + mk + "(\"A\"); " + b + " := " + mk + "(\"B\"); " +
+		w + " := [" + a + "(" + strconv.Itoa(n1) + ", " + a + ", " + b + "), " + b + "(" + strconv.Itoa(n2) + ", " + b + ", " + a + "), " + a + "(0, " + a + ", " + b + ")]"
 }
